@@ -455,8 +455,24 @@ class Runner:
 
 def run_behaviour(draw, beh, pt2=None, numeric=True, stop_at_first=True, runner=None):
     """Step the behaviour's inputs through the real optimizer.  Returns (python-side mismatches, observed trace)."""
-    r = runner or Runner(draw, pt2=pt2, numeric=numeric)
+    try:
+        r = runner or Runner(draw, pt2=pt2, numeric=numeric)
+    except Exception as ex:  # noqa - the configuration is valid (the behaviour was generated for it): the constructor must accept it
+        import traceback
+        tb = traceback.extract_tb(ex.__traceback__)
+        if any("/harness/" in f.filename and f.name not in ("build", "__init__") for f in tb[-1:]):
+            raise              # the exception comes from the harness itself
+        return [(0, "structure.construction_raised", "the optimizer constructs for this configuration",
+                 f"{type(ex).__name__}: {str(ex)[:160]}")], None
     out = []
+    # the behaviour was generated for the block structure this configuration has (shapes, max_preconditioner_dim, merging): the
+    # optimizer that was just built must have exactly those blocks, whatever else the draw says (requires_grad flags, dtypes, ...)
+    first = next((ev for ev in beh if ev["ev"] == "Step"), None)
+    if first is not None:
+        want = [len(go) for go in first["outc"]]
+        got = [len(m) for m in r.meta]
+        if want != got:
+            return [(0, "structure.blocks_per_group", want, got)], {"cfg": r.abstract, "events": []}
     for i, ev in enumerate(beh):
         em = r.do_event(ev)
         if em is not None:
